@@ -57,6 +57,9 @@ void monReset() {
   g.gatesStarted = 0;
   g.programsDone = 0;
   g.release = 0;
+  g.phase = 0;
+  g.phasedStarted = 0;
+  g.phasedKidQueued = 0;
   g.poolDead = false;
   g.poolDying = false;
   g.resizes = 0;
@@ -158,6 +161,15 @@ void Task::operator()() const {
     while (!g.release.load(std::memory_order_relaxed)) {
       dispenso::detail::cpuRelax();
     }
+  } else if (act == A_PHASED) {
+    g.phasedStarted.store(1, std::memory_order_relaxed);
+    while (g.phase.load(std::memory_order_relaxed) < 1) dispenso::detail::cpuRelax();
+    {
+      uint32_t b = newIds(1);
+      subPoolFQ(*g.pool, mkTask(b, A_NONE, static_cast<uint8_t>(F_CHILD | F_FQ), 0, 0, nullptr, id, 1));
+    }
+    g.phasedKidQueued.store(1, std::memory_order_relaxed);
+    while (g.phase.load(std::memory_order_relaxed) < 2) dispenso::detail::cpuRelax();
   } else if (act == A_PROGRAM) {
     // a program run by a thread that is inside submit/wait must start with clean scopes
     int sIn = tl.inSubmit, sW = tl.inWait, sF = tl.fqN;
